@@ -169,6 +169,15 @@ func init() {
 					}
 				}
 			}
+			// relative references (contents, scripts, changelog) with the configuration file in another directory: they are
+			// relative to the working directory, whatever lies next to the configuration file
+			for _, f := range Formats {
+				for _, inv := range []string{"", "stdin"} {
+					if !yield(C15Case{Part: "cli-relrefs", Format: f, Cfg: baseMeta(), Invoke: inv}) {
+						return
+					}
+				}
+			}
 			// the target path already holds a larger / a smaller file
 			for _, f := range Formats {
 				for _, tg := range []string{"file", "dir", "empty"} {
@@ -370,6 +379,79 @@ func checkC15(env *engine.Env, ci any) engine.Outcome {
 	bin, err := nfpmBinary(env)
 	if err != nil {
 		out.HarnessError = err.Error()
+		return out
+	}
+	if c.Part == "cli-relrefs" {
+		work, err := os.MkdirTemp(env.Scratch, "clirel-")
+		if err != nil {
+			out.HarnessError = err.Error()
+			return out
+		}
+		defer os.RemoveAll(work)
+		put := func(rel string, data []byte, mode os.FileMode) {
+			p := filepath.Join(work, rel)
+			os.MkdirAll(filepath.Dir(p), 0o755)
+			os.WriteFile(p, data, mode)
+			os.Chmod(p, mode)
+		}
+		clA := "- semver: \"1.0.0\"\n  date: \"2009-11-10T23:00:00Z\"\n  packager: \"Jane Roe <jane@example.com>\"\n  changes:\n    - note: \"the changelog of the working directory\"\n"
+		clB := strings.ReplaceAll(clA, "the changelog of the working directory", "A DECOY next to the configuration file")
+		put("files/app.conf", []byte("setting = working-directory\n"), 0o644)
+		put("packaging/files/app.conf", []byte("setting = DECOY next to the configuration file\n"), 0o644)
+		put("scripts/post.sh", []byte("#!/bin/sh\necho working directory\n"), 0o755)
+		put("packaging/scripts/post.sh", []byte("#!/bin/sh\necho DECOY next to the configuration file\n"), 0o755)
+		put("changelog.yaml", []byte(clA), 0o644)
+		put("packaging/changelog.yaml", []byte(clB), 0o644)
+		mk := func(root string) string {
+			d := metaDoc(c.Cfg, f, t)
+			d["contents"] = []any{map[string]any{"src": filepath.Join(root, "files/app.conf"), "dst": "/etc/app.conf", "type": "config"}, map[string]any{"src": filepath.Join(root, "files") + "/", "dst": "/opt/files"}}
+			d["scripts"] = map[string]any{"postinstall": filepath.Join(root, "scripts/post.sh")}
+			if f == "deb" || f == "rpm" {
+				d["changelog"] = filepath.Join(root, "changelog.yaml")
+			}
+			return d.YAML()
+		}
+		relText, absText := mk(""), mk(work)
+		put("packaging/nfpm.yaml", []byte(relText), 0o644)
+		target := filepath.Join(work, "out"+extOf[f])
+		args := []string{"package", "-f", filepath.Join("packaging", "nfpm.yaml"), "-p", f, "-t", target}
+		cmd := exec.Command(bin, args...)
+		if c.Invoke == "stdin" {
+			args[2] = "-"
+			cmd = exec.Command(bin, args...)
+			cmd.Stdin = strings.NewReader(relText)
+		}
+		cmd.Dir = work
+		o, rerr := cmd.CombinedOutput()
+		out.Transitions++
+		out.Key = fmt.Sprintf("cli-relrefs:%s:%s:exit=%v", f, c.Invoke, rerr != nil)
+		if rerr != nil {
+			viol("cli:relrefs:fails:"+f, "nfpm %v (working directory holds the referenced files) failed: %v\n%s", args, rerr, o)
+			return out
+		}
+		out.Nontrivial = true
+		got, _ := os.ReadFile(target)
+		ref, berr := buildYAML(absText, f)
+		if berr != nil {
+			out.HarnessError = "reference build: " + berr.Error()
+			return out
+		}
+		if !bytes.Equal(got, ref) {
+			what := "differs from"
+			if pkg, derr := pkgread.Decode(f, got, env.Tools); derr == nil {
+				for i := range pkg.Entries {
+					if bytes.Contains(pkg.Entries[i].Data, []byte("DECOY")) {
+						what = "ships the decoy " + pkg.Entries[i].Path + " instead of the file of"
+					}
+				}
+				for k, v := range pkg.Scripts {
+					if bytes.Contains(v, []byte("DECOY")) {
+						what = "carries the decoy script in slot " + k + " instead of the script of"
+					}
+				}
+			}
+			viol("cli:relrefs:not-the-working-directory:"+f, "nfpm %v: the package %s the working directory (relative references are relative to it, not to the directory of the configuration file); %d bytes, the package built from the same files by absolute path has %d", args, what, len(got), len(ref))
+		}
 		return out
 	}
 	work, err := os.MkdirTemp(env.Scratch, "cli-")
